@@ -46,6 +46,7 @@ type Contract struct {
 	Modifies []*Clause
 	Loops    map[int]*LoopSpec
 	CallAsserts map[string][]*Clause // "callee#n" -> asserts checked before that call
+	Reveal   []string // recursive spec functions whose definition the proof may unfold
 	Trusted  bool // external / assumed
 	Unverified bool // in-package contract whose body is not (yet) verified
 	Pure     bool
@@ -83,7 +84,14 @@ type Lemma struct {
 	Src    string
 }
 
+type ChanInv struct {
+	Field string // pkg.Type.field
+	Var   string
+	C     *Clause
+}
+
 type Specs struct {
+	ChanInvs  []*ChanInv
 	Contracts map[string]*Contract
 	Ghosts    map[string]*GhostDecl
 	Funcs     map[string]*SpecFunc
@@ -206,6 +214,10 @@ func (S *Specs) LoadFile(path string, goFile bool) error {
 			for _, t := range strings.Fields(strings.ReplaceAll(rest, ",", " ")) {
 				cur.Props[t] = true
 			}
+		case "reveal":
+			for _, t := range strings.Fields(strings.ReplaceAll(rest, ",", " ")) {
+				cur.Reveal = append(cur.Reveal, t)
+			}
 		case "unverified":
 			cur.Unverified = true
 		case "pure":
@@ -324,6 +336,14 @@ func (S *Specs) LoadFile(path string, goFile bool) error {
 			S.Funcs[sf.Name] = sf
 			S.FuncOrder = append(S.FuncOrder, sf.Name)
 			cur = nil
+		case "chaninv":
+			// chaninv mqtt.Client.writeSem(v): expr
+			r := regexp.MustCompile(`^([\w.]+)\((\w+)\)\s*:\s*(.*)$`).FindStringSubmatch(rest)
+			if r == nil {
+				return fmt.Errorf("%s: cannot parse chaninv", src)
+			}
+			S.ChanInvs = append(S.ChanInvs, &ChanInv{Field: r[1], Var: r[2], C: mkClause("chaninv", r[3])})
+			cur = nil
 		case "axiom":
 			S.Axioms = append(S.Axioms, mkClause("axiom", rest))
 			cur = nil
@@ -369,6 +389,9 @@ func (S *Specs) Finish() error {
 		if f.Body != nil {
 			all = append(all, f.Body)
 		}
+	}
+	for _, ci := range S.ChanInvs {
+		all = append(all, ci.C)
 	}
 	all = append(all, S.Axioms...)
 	all = append(all, S.Globals...)
